@@ -176,6 +176,8 @@ pub struct World {
     /// all callback events of this history
     pub cb_total: Cell<u64>,
     pub drop_phase_id: Cell<u64>,
+    /// >0 while the interpreter provokes a panic it expects (finalize_again inside callbacks)
+    pub expected_panics: Cell<u32>,
 }
 
 impl World {
@@ -188,7 +190,7 @@ impl World {
             #[cfg(feature = "cleaners")]
             cr: Default::default(),
             m: RefCell::new(Model::new()),
-            stack: RefCell::new(Vec::with_capacity(64)),
+            stack: RefCell::new(Vec::with_capacity(1024)),
             errs: RefCell::new(Vec::new()),
             trace_log: RefCell::new(Vec::new()),
             verbose: Cell::new(false),
@@ -212,19 +214,19 @@ impl World {
             quiesce: Cell::new(false),
             noweak: Cell::new(false),
             box_seq: Cell::new(0),
-            pending_box: RefCell::new(Vec::new()),
-            pending_side: RefCell::new(Vec::new()),
+            pending_box: RefCell::new(Vec::with_capacity(64)),
+            pending_side: RefCell::new(Vec::with_capacity(64)),
             expect_dealloc: Cell::new(None),
             base_bytes: Cell::new(0),
             init_threshold: Cell::new(0),
             stats: Stats::default(),
             quiet_digests: RefCell::new(Vec::new()),
             auto_on: Cell::new(false),
-            releasing: RefCell::new(Vec::new()),
+            releasing: RefCell::new(Vec::with_capacity(256)),
             coll_mutated: Cell::new(false),
             coll_start_alive: Cell::new(0),
             last_box_alloc: Cell::new((0, 0)),
-            freed_boxes: RefCell::new(Vec::new()),
+            freed_boxes: RefCell::new(Vec::with_capacity(1024)),
             pending_upgrades: RefCell::new(Vec::new()),
             harness_errors: RefCell::new(Vec::new()),
             mode: Cell::new(Mode::default()),
@@ -233,6 +235,7 @@ impl World {
             new_in_flight: Cell::new(0),
             cb_total: Cell::new(0),
             drop_phase_id: Cell::new(0),
+            expected_panics: Cell::new(0),
         }
     }
 }
@@ -332,6 +335,7 @@ impl World {
 
     pub fn tlog(&self, f: impl FnOnce() -> String) {
         if self.verbose.get() {
+            let _t = vcommon::alloc::TagGuard::new(vcommon::alloc::TAG_HARNESS);
             if let Ok(mut l) = self.trace_log.try_borrow_mut() {
                 let depth = self.stack.borrow().len();
                 l.push(format!("{}{}", "  ".repeat(depth), f()));
